@@ -37,11 +37,15 @@ ScOf(j) == [single   |-> [n \in Node |-> ToSet(j.single[n])],
 
 ZeroCnt == [c \in Callbacks |-> 0]
 NoFirst == [set |-> FALSE]
-\* C10: what a run leaves behind, as far as it must not depend on any order: the status and, per holder, the
-\* SET of objects in its fields (slice element order is free)
-Outcome(st, ok) == [ok |-> ok, fS |-> IF sc.sparse THEN ToSet(st.fS) ELSE {[h |-> h, t |-> t, v |-> st.fS[h][t]] : h \in Node, t \in Node},
-                    fL |-> IF sc.sparse THEN {[h |-> x.h, v |-> x.v] : x \in ToSet(st.fL)}
-                           ELSE UNION {{[h |-> h, v |-> st.fL[h][i]] : i \in 1..Len(st.fL[h])} : h \in Node}]
+\* C10: what a run leaves behind, as far as it must not depend on any order: the status and, per holder, WHICH COMPONENTS
+\* its points received (slice element order is free).  The object VERSION is deliberately not compared: a processor that
+\* wraps only when an early reference is requested yields the wrapped or the raw version of the same component depending on
+\* which cycle member is reached first - consistently for all holders (C01/C03), and outside "which component it receives".
+Outcome(st, ok) == [ok |-> ok,
+                    fS |-> IF sc.sparse THEN {[h |-> x.h, t |-> x.t, n |-> x.v.n] : x \in ToSet(st.fS)}
+                           ELSE {[h |-> h, t |-> t, n |-> st.fS[h][t].n] : h \in Node, t \in Node},
+                    fL |-> IF sc.sparse THEN {[h |-> x.h, n |-> x.v.n] : x \in ToSet(st.fL)}
+                           ELSE UNION {{[h |-> h, n |-> st.fL[h][i].n] : i \in 1..Len(st.fL[h])} : h \in Node}]
 FreshP(s) ==
   /\ firstRun' = (IF firstRun.set /\ firstRun.sc = s THEN firstRun ELSE NoFirst) /\ sameOK' = sameOK
   /\ ranM' = <<>> /\ runOK' = runOK
